@@ -122,5 +122,26 @@ def TopOK (g : Graph) (t : Str) : Prop :=
 instance (g : Graph) (t : Str) : Decidable (TopOK g t) := by
   unfold TopOK; cases g.top <;> infer_instance
 
+/-- the epidata carries layout markers only (no alignments) -/
+def NoAlign (g : Graph) : Prop :=
+  ∀ t ∈ g.triples, ∀ e ∈ (AList.get? g.epidata t).getD [], e.mode = 0
+
+instance (g : Graph) : Decidable (NoAlign g) := by unfold NoAlign; infer_instance
+
 end Cfg
+
+/-- `/` abbreviates `:instance` -/
+def slashRole (r : Str) : Str := if r = ['/'] then CONCEPT_ROLE else r
+
+mutual
+/-- the triples a tree writes, as written (role and target text untouched, `/` read as
+    `:instance`, a nested node as its variable), in text order -/
+def Node.edgeTriples : Node → List Triple
+  | .mk v bs => Branches.edgeTriples (v.getD []) bs
+def Branches.edgeTriples (v : Str) : Branches → List Triple
+  | .nil => []
+  | .atom r a rest => ⟨v, slashRole r, a⟩ :: Branches.edgeTriples v rest
+  | .sub r n rest => ⟨v, slashRole r, .str (n.var.getD [])⟩ :: (Node.edgeTriples n ++ Branches.edgeTriples v rest)
+end
+
 end Penman
